@@ -1991,39 +1991,83 @@ func (ctx *RenderContext) ToString(val interface{}) string {
 // differs from run to run). Values without nested pointers are left to fmt.
 func formatWithoutAddresses(val interface{}) string {
 	rv := reflect.ValueOf(val)
-	if !holdsPointer(rv, 0) {
+	if !holdsPointer(rv, 0, nil) {
 		return fmt.Sprintf("%v", val)
 	}
 	var b strings.Builder
-	writeDereferenced(&b, rv, 0)
+	writeDereferenced(&b, rv, 0, nil)
 	return b.String()
 }
 
-// holdsPointer reports whether a non-nil pointer is reachable inside a composite value
-func holdsPointer(rv reflect.Value, depth int) bool {
+// valueRef identifies a pointer, map or slice value; valuePath lists the ones that
+// are being walked, outermost first
+type valueRef struct {
+	typ reflect.Type
+	ptr uintptr
+}
+
+type valuePath []valueRef
+
+// enter reports whether rv is already being walked (the value contains itself) and
+// otherwise returns the path extended by rv
+func (p valuePath) enter(rv reflect.Value) (valuePath, bool) {
+	if rv.Kind() == reflect.Slice && rv.Len() == 0 {
+		return p, false
+	}
+	ref := valueRef{rv.Type(), rv.Pointer()}
+	for _, seen := range p {
+		if seen == ref {
+			return p, true
+		}
+	}
+	return append(p[:len(p):len(p)], ref), false
+}
+
+// holdsPointer reports whether a non-nil pointer is reachable inside a composite
+// value, or the value contains itself (fmt would never finish printing that)
+func holdsPointer(rv reflect.Value, depth int, path valuePath) bool {
 	if depth > 32 || !rv.IsValid() {
 		return false
 	}
 	switch rv.Kind() {
 	case reflect.Ptr:
-		return depth > 0 && !rv.IsNil() || (!rv.IsNil() && holdsPointer(rv.Elem(), depth+1))
+		if rv.IsNil() {
+			return false
+		}
+		if depth > 0 {
+			return true
+		}
+		return holdsPointer(rv.Elem(), depth+1, path)
 	case reflect.Interface:
-		return !rv.IsNil() && holdsPointer(rv.Elem(), depth+1)
+		return !rv.IsNil() && holdsPointer(rv.Elem(), depth+1, path)
 	case reflect.Slice, reflect.Array:
+		if rv.Kind() == reflect.Slice {
+			var cycle bool
+			if path, cycle = path.enter(rv); cycle {
+				return true
+			}
+		}
 		for i := 0; i < rv.Len(); i++ {
-			if holdsPointer(rv.Index(i), depth+1) {
+			if holdsPointer(rv.Index(i), depth+1, path) {
 				return true
 			}
 		}
 	case reflect.Map:
+		if rv.IsNil() {
+			return false
+		}
+		var cycle bool
+		if path, cycle = path.enter(rv); cycle {
+			return true
+		}
 		for _, k := range rv.MapKeys() {
-			if holdsPointer(rv.MapIndex(k), depth+1) {
+			if holdsPointer(rv.MapIndex(k), depth+1, path) {
 				return true
 			}
 		}
 	case reflect.Struct:
 		for i := 0; i < rv.NumField(); i++ {
-			if holdsPointer(rv.Field(i), depth+1) {
+			if holdsPointer(rv.Field(i), depth+1, path) {
 				return true
 			}
 		}
@@ -2031,12 +2075,16 @@ func holdsPointer(rv reflect.Value, depth int) bool {
 	return false
 }
 
-func writeDereferenced(b *strings.Builder, rv reflect.Value, depth int) {
+// maxDereferencedLen bounds the text written for one value: a value in which many paths
+// lead to the same large parts would otherwise take exponentially long to print
+const maxDereferencedLen = 1 << 20
+
+func writeDereferenced(b *strings.Builder, rv reflect.Value, depth int, path valuePath) {
 	if !rv.IsValid() {
 		b.WriteString("<nil>")
 		return
 	}
-	if depth > 32 {
+	if depth > 32 || b.Len() > maxDereferencedLen {
 		b.WriteString("...")
 		return
 	}
@@ -2046,25 +2094,46 @@ func writeDereferenced(b *strings.Builder, rv reflect.Value, depth int) {
 			b.WriteString("<nil>")
 			return
 		}
-		if rv.Kind() == reflect.Ptr && rv.Elem().Kind() == reflect.Struct {
-			b.WriteString("&")
+		if rv.Kind() == reflect.Ptr {
+			var cycle bool
+			if path, cycle = path.enter(rv); cycle {
+				b.WriteString("<cycle>")
+				return
+			}
+			if rv.Elem().Kind() == reflect.Struct {
+				b.WriteString("&")
+			}
 		}
-		writeDereferenced(b, rv.Elem(), depth+1)
+		writeDereferenced(b, rv.Elem(), depth+1, path)
 	case reflect.Slice, reflect.Array:
+		if rv.Kind() == reflect.Slice {
+			var cycle bool
+			if path, cycle = path.enter(rv); cycle {
+				b.WriteString("<cycle>")
+				return
+			}
+		}
 		b.WriteString("[")
 		for i := 0; i < rv.Len(); i++ {
 			if i > 0 {
 				b.WriteString(" ")
 			}
-			writeDereferenced(b, rv.Index(i), depth+1)
+			writeDereferenced(b, rv.Index(i), depth+1, path)
 		}
 		b.WriteString("]")
 	case reflect.Map:
+		if !rv.IsNil() {
+			var cycle bool
+			if path, cycle = path.enter(rv); cycle {
+				b.WriteString("<cycle>")
+				return
+			}
+		}
 		keys := rv.MapKeys()
 		names := make([]string, len(keys))
 		for i, k := range keys {
 			var kb strings.Builder
-			writeDereferenced(&kb, k, depth+1)
+			writeDereferenced(&kb, k, depth+1, path)
 			names[i] = kb.String()
 		}
 		order := make([]int, len(keys))
@@ -2085,7 +2154,7 @@ func writeDereferenced(b *strings.Builder, rv reflect.Value, depth int) {
 			}
 			b.WriteString(names[i])
 			b.WriteString(":")
-			writeDereferenced(b, rv.MapIndex(keys[i]), depth+1)
+			writeDereferenced(b, rv.MapIndex(keys[i]), depth+1, path)
 		}
 		b.WriteString("]")
 	case reflect.Struct:
@@ -2094,7 +2163,7 @@ func writeDereferenced(b *strings.Builder, rv reflect.Value, depth int) {
 			if i > 0 {
 				b.WriteString(" ")
 			}
-			writeDereferenced(b, rv.Field(i), depth+1)
+			writeDereferenced(b, rv.Field(i), depth+1, path)
 		}
 		b.WriteString("}")
 	case reflect.Bool:
